@@ -513,6 +513,23 @@ def wfL : Nat → Re → Bool
 `MAX_GROUPS` groups, not the empty pattern -/
 def wfE (r : Re) : Bool := wfL 2 r && decide (r.groups + 1 < Gen.C04.MAX_GROUPS)
 
+/-- BRE counterpart of `wfL`: no alternation (strict BRE has none); `^` is an anchor only as
+the first item of a (sub)pattern (`first`), `$` only as the last one (`last`) -/
+def wfBL : Nat → Bool → Bool → Re → Bool
+  | lvl, _, _, .empty => lvl == 3
+  | _, _, _, .alt _ _ => false
+  | lvl, first, last, .cat a b => decide (1 ≤ lvl) && wfBL 0 first false a && wfBL 1 false last b
+  | _, _, _, .chr c => c != 0
+  | _, _, _, .any => true
+  | _, first, _, .bol => first
+  | _, _, last, .eol => last
+  | _, _, _, .cls _ => false
+  | _, _, _, .rep r m n => r.isAtom && wfBL 0 false false r && countOk m n
+  | _, _, _, .group r => wfBL 3 true true r
+
+/-- BRE fragment of `parse_render_bre_partial` -/
+def wfB (r : Re) : Bool := wfBL 1 true true r && decide (r.groups + 1 < Gen.C04.MAX_GROUPS)
+
 /-- what `regcomp` stores for a tree: literals folded under `REG_ICASE` -/
 def foldRe (fl : PFlags) : Re → Re
   | .chr c => .chr (foldc fl c)
